@@ -32,6 +32,11 @@ type gridCase struct {
 	// and logs on again with N on the same connection; action times and the horizon count from the
 	// second logon
 	PrevN int `json:"prev_n,omitempty"`
+	// After: "own-logout" = the session sends a Logout 100 ms after the logon and the peer never answers
+	// it; "peer-logout" = the peer logs out at 100 ms (answered) and stays connected.  The peer's
+	// silence must still end in the disconnect event (C09 "... then disconnected"); whether a peer
+	// that is not logged on is probed first is not judged.
+	After string `json:"after,omitempty"`
 }
 
 type gridObs struct {
@@ -65,6 +70,16 @@ func gridRun(c gridCase) (o gridObs, sig, detail string) {
 	w.logonOK(c.N)
 	if !w.s.IsLogged() {
 		return o, "setup:not-logged", ""
+	}
+	switch c.After {
+	case "own-logout":
+		time.Sleep(100 * time.Millisecond)
+		_ = w.s.Logout()
+		vsched.Settle()
+	case "peer-logout":
+		time.Sleep(100 * time.Millisecond)
+		o.inAt = append(o.inAt, vsched.NowOffset())
+		w.in(w.msg("5"))
 	}
 	go func() {
 		// handler loop end is observed by polling runDone at every instant the harness is awake;
@@ -247,7 +262,44 @@ func c09Check(c gridCase, o gridObs, arrFirst bool) (string, string) {
 	return "", ""
 }
 
+// c09AfterLogout: the peer of a session that is no longer logged on falls silent.  Two silent
+// periods after the last arrival the disconnect event is raised (each expiry is noticed within one
+// polling step), not earlier, exactly once, and the handler is stopped at that instant.
+func c09AfterLogout(c gridCase, o gridObs) (string, string) {
+	T := time.Duration(c.N+tol(c.N)) * time.Second
+	win := T / 10
+	last := o.logonAt
+	for _, a := range o.inAt {
+		if a > last {
+			last = a
+		}
+	}
+	lo, hi := last+2*T, last+2*T+2*win
+	if o.discAt < 0 {
+		if o.end > hi {
+			return "after-logout:silent-peer-never-disconnected", fmt.Sprintf("%s: last arrival %v, disconnect was due in [%v,%v], horizon %v", c.After, last, lo, hi, o.end)
+		}
+		return "", ""
+	}
+	if o.discAt < lo {
+		return "after-logout:disconnect-too-early", fmt.Sprintf("%s: last arrival %v, disconnect at %v, not due before %v", c.After, last, o.discAt, lo)
+	}
+	if o.discAt > hi {
+		return "after-logout:disconnect-too-late", fmt.Sprintf("%s: last arrival %v, disconnect at %v, due by %v", c.After, last, o.discAt, hi)
+	}
+	if o.discEv != 1 {
+		return "disconnect-event-count", fmt.Sprint(o.discEv)
+	}
+	if o.stoppedAt != o.discAt {
+		return "handler-not-stopped-on-disconnect", fmt.Sprintf("disconnect at %v, handler context cancelled at %v", o.discAt, o.stoppedAt)
+	}
+	return "", ""
+}
+
 func c09Oracle(c gridCase, o gridObs) (string, string) {
+	if c.After != "" {
+		return c09AfterLogout(c, o)
+	}
 	s1, d1 := c09Check(c, o, true)
 	if s1 == "" {
 		return "", ""
@@ -322,8 +374,8 @@ func runGrid(R *vlib.Out, prop string) {
 		}
 		out := fmt.Sprintf("hb=%d tr=%d disc=%v", nhb, ntr, o.discAt >= 0)
 		R.Outcome(out)
-		R.State(fmt.Sprintf("%s/%d/%v/%s/%d", c.Role, c.N, c.Acts, c.Pattern, c.PrevN))
-		R.ClassU(fmt.Sprintf("%s/%d/%s/%s/%v/%d", c.Role, c.N, out, c.Pattern, kinds(c.Acts), c.PrevN))
+		R.State(fmt.Sprintf("%s/%d/%v/%s/%d/%s", c.Role, c.N, c.Acts, c.Pattern, c.PrevN, c.After))
+		R.ClassU(fmt.Sprintf("%s/%d/%s/%s/%v/%d/%s", c.Role, c.N, out, c.Pattern, kinds(c.Acts), c.PrevN, c.After))
 		R.Sample(5, c)
 		if sig != "" {
 			R.Violate(sig, fmt.Sprintf("%+v: %s", c, d), c)
@@ -448,6 +500,24 @@ func runGrid(R *vlib.Out, prop string) {
 					}
 					if !try(gridCase{Role: role, N: N, PrevN: prev, Acts: acts, Horizon: 4*Nms + horizon, Pattern: "relogon-steady"}) {
 						return
+					}
+				}
+			}
+			if prop == "C09" {
+				// the peer falls silent after a logout (pending or completed): silence, and one arrival anywhere
+				for _, after := range []string{"own-logout", "peer-logout"} {
+					if !try(gridCase{Role: role, N: N, After: after, Horizon: horizon, Pattern: "after-logout"}) {
+						return
+					}
+					for _, t := range gridPoints(N, true) {
+						for _, k := range []int{2, 3} {
+							if t <= 100 {
+								continue
+							}
+							if !try(gridCase{Role: role, N: N, After: after, Acts: []gact{{t, k}}, Horizon: horizon + t, Pattern: "after-logout"}) {
+								return
+							}
+						}
 					}
 				}
 			}
